@@ -24,7 +24,7 @@ RULE = (
     "the REAL code on the reduced ensemble (differential, for functions and - when the survivors lost no perturbation - for gradients, merged included), and the least-squares fit over the surviving perturbations for per-realization gradients. "
     "Within a shard all cases with the same configuration REUSE one EnsembleEvaluator (each case starts from the state the "
     "previous failure patterns left behind; a violation that needs that history is replayed by re-running the shard). "
-    "Plus: functions at a point, then a gradient-only request at a point that differs in a FIXED variable only, with a realization failing at one of the two points only: flags and gradient must equal those of a fresh evaluator. Trivial: nothing judged (abort by filter/estimator, which C14 judges)."
+    "Plus: functions at a point, then a gradient-only request at a point that differs in a FIXED variable only, with a realization failing at one of the two points only: flags and gradient must equal those of a fresh evaluator. Single instances beyond the alphabet: infinite values are not failures; 20 realizations with a sort / CVaR filter and each single failure against the real code on the 19 others. Trivial: nothing judged (abort by filter/estimator, which C14 judges)."
 )
 ASSUMPTIONS = [
     "affine objective 0 and quadratic objective 1 / constraint with dyadic coefficients; deterministic design sampler; "
@@ -362,6 +362,56 @@ def judge_fixed_moved(case: dict[str, Any]) -> Judgement:
     return j
 
 
+def judge_spot(case: dict[str, Any]) -> Judgement:
+    """Single instances beyond the enumerated alphabet: infinite (not NaN) values are not failures; an ensemble of 20
+    realizations with a sort / CVaR filter and one failed realization equals the ensemble without it."""
+    from ropt.ensemble_evaluator import EnsembleEvaluator
+    from ropt.results import FunctionResults, GradientResults
+
+    j = Judgement()
+    manager, _ = make_manager()
+    j.outcome = f"spot:{case['spot']}"
+    j.transitions = 1
+    if case["spot"] == "infinite":
+        config = validate({
+            "variables": {"initial_values": [0.5]},
+            "realizations": {"weights": [1.0, 1.0], "realization_min_success": 0},
+            "objectives": {"weights": [1.0, 1.0]},
+            "gradient": {"number_of_perturbations": 2, "perturbation_magnitudes": 0.1, "perturbation_min_success": 1},
+        })
+
+        def fn(x: np.ndarray, r: int) -> list[float]:
+            return [np.inf, -np.inf] if r == 1 else [float(x[0]), 2.0 * float(x[0])]
+
+        with np.errstate(all="ignore"):
+            results = EnsembleEvaluator(config, None, TableEvaluator(fn, 2, 0), manager).calculate(np.array([0.5]), compute_functions=True, compute_gradients=True)
+        for item in results:
+            if isinstance(item, (FunctionResults, GradientResults)) and np.any(item.realizations.failed_realizations):
+                j.fail("infinite-value-flagged-as-failure", result=type(item).__name__, failed=item.realizations.failed_realizations)
+        return j
+    R, fr = 20, case["fr"]
+    keys = np.array([float((7 * i + 3) % 20) for i in range(R)]) * 0.5 - 2.0
+    flt = ({"method": "sort-objective", "options": {"sort": [0], "first": 3, "last": 12}} if case["spot"] == "large-sort"
+           else {"method": "cvar-objective", "options": {"sort": [0], "percentile": 0.4}})
+
+    def build(n: int) -> Any:
+        return validate({
+            "variables": {"initial_values": [0.5]},
+            "realizations": {"weights": [1.0] * n, "realization_min_success": 1},
+            "objectives": {"weights": [1.0], "realization_filters": [0]},
+            "realization_filters": [flt],
+        })
+
+    keep = np.array([r for r in range(R) if r != fr])
+    full = EnsembleEvaluator(build(R), None, TableEvaluator(lambda x, r: [np.nan if r == fr else keys[r] + float(x[0])], 1, 0), manager)
+    reduced = EnsembleEvaluator(build(R - 1), None, TableEvaluator(lambda x, r: [keys[keep[r]] + float(x[0])], 1, 0), manager)
+    (a,) = full.calculate(np.array([0.5]), compute_functions=True, compute_gradients=False)
+    (b,) = reduced.calculate(np.array([0.5]), compute_functions=True, compute_gradients=False)
+    if not close(a.functions.objectives[0], b.functions.objectives[0], 1e-12):
+        j.fail(f"large-ensemble:differs-from-reduced-ensemble:{case['spot']}", failed=fr, observed=a.functions.objectives[0], reduced=b.functions.objectives[0])
+    return j
+
+
 def shards(tier: str, seed: int) -> list[dict[str, Any]]:
     shapes = [(1, 1), (1, 2), (2, 1), (2, 2), (3, 1), (3, 2)]
     if tier == "thorough":
@@ -374,11 +424,17 @@ def shards(tier: str, seed: int) -> list[dict[str, Any]]:
         for group in core.chunked(subsets, chunk):
             out.append({"R": R, "P": P, "subsets": [group[0], group[-1] + 1], "tier": tier, "seed": seed})
     out.append({"kind": "fixed-moved", "tier": tier, "seed": seed})
+    out.append({"kind": "spot", "tier": tier, "seed": seed})
     return out
 
 
 def run_shard(shard: dict[str, Any]) -> core.ShardResult:
     rec = Recorder(shard)
+    if shard.get("kind") == "spot":
+        cases = [{"kind": "spot", "spot": "infinite"}] + [{"kind": "spot", "spot": s, "fr": fr} for s in ("large-sort", "large-cvar") for fr in range(20)]
+        for case in cases:
+            rec.add(("spot", case["spot"], case.get("fr")), case, judge_spot(case))
+        return rec.finish()
     if shard.get("kind") == "fixed-moved":
         for R in (2, 3):
             for fr in range(R):
@@ -419,6 +475,8 @@ def run_shard(shard: dict[str, Any]) -> core.ShardResult:
 def run_case(case: dict[str, Any]) -> Judgement:
     if case.get("kind") == "fixed-moved":
         return judge_fixed_moved(case)
+    if case.get("kind") == "spot":
+        return judge_spot(case)
     return judge(case)
 
 
